@@ -950,6 +950,13 @@ func main() {
 	fl.WriteString("end Rules.Generated\n")
 	os.WriteFile(filepath.Join(outdir, "Facts.lean"), []byte(fl.String()), 0o644)
 
+	if lexerATNLean == "" {
+		// unreadable tables, or tables outside the modelled fragment: an empty table (Tie/LexerATNProof then proves nothing
+		// about the lexer and says so)
+		lexerATNLean = "import RulesModel.Model.ATN\n/-! GENERATED by /verif/extract: the lexer ATN could not be rendered (" + strings.ReplaceAll(f.LexerATN, "-/", "- /") + "). -/\nnamespace Rules.Generated\nopen Rules.NFA\ndef lexerAtnData : ATN := { edges := [], stops := [] }\ndef lexerAtnRules : List (Nat × Nat × Nat × List (Nat × Nat)) := []\nend Rules.Generated\n"
+	}
+	os.WriteFile(filepath.Join(outdir, "LexerATN.lean"), []byte(lexerATNLean), 0o644)
+
 	vsrc, vstatus, vnotes := genVisitor(fset, decls, declFile, f.TokenConsts, render)
 	f.VisitorGen, f.VisitorNote = vstatus, vnotes
 	os.WriteFile(filepath.Join(outdir, "Visitor.lean"), []byte(vsrc), 0o644)
